@@ -217,11 +217,25 @@ func TestCheck(t *testing.T) {
 		steps := do(plan{Sets: s}) // crash-free run tells how many step points the sequence has
 		for c := 0; c < steps; c++ {
 			n := do(plan{Sets: s, Crashes: []int{c}})
-			// a second crash after the first one (recovery itself crashes)
-			if len(s) >= 2 && (ev.Thorough() || rng.Intn(8) == 0) {
-				for c2 := c + 1; c2 < n; c2++ {
-					if ev.Thorough() || rng.Intn(4) == 0 {
-						do(plan{Sets: s, Crashes: []int{c, c2}})
+			// a second crash after the first one (recovery itself crashes): exhaustive for 2 Writes in the thorough tier,
+			// sampled otherwise (the space is quadratic in the number of step points)
+			if len(s) >= 2 {
+				p1, p2 := 8, 4 // quick: one first-crash in 8, then one second-crash in 4
+				if ev.Thorough() {
+					switch len(s) {
+					case 2:
+						p1, p2 = 1, 1
+					case 3:
+						p1, p2 = 2, 5
+					default:
+						p1, p2 = 0, 0
+					}
+				}
+				if p1 > 0 && rng.Intn(p1) == 0 {
+					for c2 := c + 1; c2 < n; c2++ {
+						if rng.Intn(p2) == 0 {
+							do(plan{Sets: s, Crashes: []int{c, c2}})
+						}
 					}
 				}
 			}
